@@ -16,7 +16,7 @@ from sim import specs, canon, core, seams
 ID = "C11"
 DEFAULT_SEED = {"quick": 1111, "thorough": 2111}
 TIERS = {"quick": {"runs": 1500, "budget_s": 100, "cap_s": 150},
-         "thorough": {"runs": 20000, "budget_s": 1200, "cap_s": 240}}
+         "thorough": {"runs": 36000, "budget_s": 1200, "cap_s": 240}}
 STUBS = ["SimDisk behind eaopack.serialization.open (ENOSPC after k bytes, EIO on close, EIO on read, short read, crash before close)",
          "restart (all Python objects dropped, only SimDisk survives)", "the client that shapes the object before saving"]
 ASSUMPTIONS = [
